@@ -7,6 +7,7 @@ co-inductively at joint yield points whose canonical state has been seen before 
 prefix of the decision vector - see DESIGN A.11 lesson 1)."""
 import ast
 import collections
+import os
 import sys
 
 from .source import EngineError, BUILTIN_CLASSES, ClassInfo, ModuleInfo
@@ -17,6 +18,20 @@ from . import ops
 
 ABS_EXC = ClassInfo("SomeException", bases=[BUILTIN_CLASSES["Exception"]], builtin=True)
 ABS_GEN_EXIT = ClassInfo("SomeGeneratorExitSubclass", bases=[BUILTIN_CLASSES["GeneratorExit"]], builtin=True)
+
+
+class LoopHead:
+    """marker yielded at the head of a `for` loop over a harness collection of arbitrary length (the iterator carries it
+    as `pyvc_loop_head`); both sides of a bisimulation must reach the same marker object"""
+
+    def __init__(self, name):
+        self.name = name
+
+    def __repr__(self):
+        return f"<loop head {self.name}>"
+
+    def canon(self, cn):
+        return ("loop-head", self.name)
 
 
 class Oracle:
@@ -265,6 +280,12 @@ class Canon:
         dl = getattr(fr, "delegate", None)
         if dl is not None:
             ctx = ctx + (("delegate", self.c(dl)),)
+        if getattr(self, "deep", False):
+            # the sub-iterator a frame is suspended on in `yield from` (interp.yield_from): without it the state of a
+            # sub-generator that no variable refers to (`yield from inner()`) is not part of the cut key
+            yf = getattr(fr, "yf_delegate", None)
+            if yf is not None:
+                ctx = ctx + (("yield-from", self.c(yf)),)
         return ("frame", fr.closure.qualname if fr.closure else None, loc, tuple(items), ctx)
 
     def ctx(self, x):
@@ -434,6 +455,9 @@ class Bisim:
             if getattr(self, "generalize_counters", False):
                 self._havoc_counters()
             cn = Canon(w)
+            # opt-in (Bisim.deep_keys, or PYVC_DEEP_KEYS=1 for every bisimulation): cut keys follow `yield from` into
+            # sub-generators that no variable refers to
+            cn.deep = getattr(self, "deep_keys", False) or os.environ.get("PYVC_DEEP_KEYS") == "1"
             cn.exclude = set(self.canon_exclude)      # (function qualname, local name) pairs abstracted away by a cut invariant
             for side in (self.impl, self.ref):
                 fr = getattr(side.gen, "frame", None)
@@ -451,6 +475,12 @@ class Bisim:
                     w.cover(f"{self.name}: closed at an established cut point")
                     return
                 seen.add(key)
+            if isinstance(oi[1], LoopHead):
+                # joint loop head of a loop over a harness collection of arbitrary length (interp.ex_For): a cut point
+                # (loop invariant), not a real yield - the driver cannot intervene here
+                tok = ("send", None)
+                self.script.append("(loop head)")
+                continue
             kind = w.choose(self.driver, "driver")
             if kind == "send":
                 if self.send_factory is not None:
